@@ -454,7 +454,8 @@ func (w *World) checkRepoLayout(repo string, afterGC bool) {
 		} else {
 			untagged[e.Digest]++
 			if untagged[e.Digest] > 1 {
-				w.x.viol([]string{"C10", "C18"}, "index.invariant", "untagged digest listed twice", fmt.Sprintf("%s index.json lists untagged %s %d times", repo, e.Digest, untagged[e.Digest]))
+				// (C18's statement, not C10's: a layout that lists an untagged digest twice is still valid and describes the same state)
+				w.x.viol([]string{"C18"}, "index.invariant", "untagged digest listed twice", fmt.Sprintf("%s index.json lists untagged %s %d times", repo, e.Digest, untagged[e.Digest]))
 			}
 		}
 	}
